@@ -11,16 +11,16 @@ import (
 
 func bs(s string) []any { return bytesJSON(s) }
 
-func vNil() J           { return J{"k": "nil"} }
-func vBool(b bool) J    { return J{"k": "bool", "v": b} }
-func vInt(n int) J      { return J{"k": "int", "v": n} }
-func vFlt(n, d int) J   { return normFlt(n, d) }
-func vStr(s string) J   { return J{"k": "str", "v": bs(s)} }
-func vArr(xs ...any) J  { return J{"k": "arr", "v": append([]any{}, xs...)} }
-func eLit(v J) J        { return J{"t": "lit", "v": v} }
-func eVar(n string) J   { return J{"t": "var", "name": bs(n)} }
-func eProp(e J, n string) J { return J{"t": "prop", "e": e, "name": bs(n)} }
-func eIdx(e, i J) J     { return J{"t": "idx", "e": e, "i": i} }
+func vNil() J                  { return J{"k": "nil"} }
+func vBool(b bool) J           { return J{"k": "bool", "v": b} }
+func vInt(n int) J             { return J{"k": "int", "v": n} }
+func vFlt(n, d int) J          { return normFlt(n, d) }
+func vStr(s string) J          { return J{"k": "str", "v": bs(s)} }
+func vArr(xs ...any) J         { return J{"k": "arr", "v": append([]any{}, xs...)} }
+func eLit(v J) J               { return J{"t": "lit", "v": v} }
+func eVar(n string) J          { return J{"t": "var", "name": bs(n)} }
+func eProp(e J, n string) J    { return J{"t": "prop", "e": e, "name": bs(n)} }
+func eIdx(e, i J) J            { return J{"t": "idx", "e": e, "i": i} }
 func eCmp(op string, a, b J) J { return J{"t": "cmp", "op": op, "a": a, "b": b} }
 func eFilter(e J, name string, args ...any) J {
 	return J{"t": "filter", "e": e, "name": name, "args": append([]any{}, args...)}
@@ -62,19 +62,19 @@ func vMap(pairs ...any) J {
 }
 
 type pgen struct {
-	r       *rand.Rand
-	trims   bool // sprinkle whitespace-control markers
-	budget  int
-	inLoop  int
-	names   []string // scalar-ish variable names in scope
-	arrays  []string
-	maps    []string
-	texts   []string
-	noErr   bool // avoid constructs that may fail the render
-	captures int
-	rich    bool // use the extended filter pool
+	r          *rand.Rand
+	trims      bool // sprinkle whitespace-control markers
+	budget     int
+	inLoop     int
+	names      []string // scalar-ish variable names in scope
+	arrays     []string
+	maps       []string
+	texts      []string
+	noErr      bool // avoid constructs that may fail the render
+	captures   int
+	rich       bool // use the extended filter pool
 	flAssigned bool
-	hasInc  bool // an includable file inc.liq exists
+	hasInc     bool // an includable file inc.liq exists
 }
 
 func pick[T any](r *rand.Rand, xs []T) T { return xs[r.Intn(len(xs))] }
@@ -615,17 +615,33 @@ func (g *pgen) richEnv() ([]any, J) {
 }
 
 var moreFilters = []func(g *pgen, recv J) J{
-	func(g *pgen, r J) J { return eFilter(eVar(pick(g.r, g.arrays)), pick(g.r, []string{"sort", "reverse", "uniq", "compact"})) },
-	func(g *pgen, r J) J { return eFilter(eFilter(eVar(pick(g.r, g.arrays)), pick(g.r, []string{"sort", "reverse", "uniq", "compact"})), "join", eLit(vStr("+"))) },
-	func(g *pgen, r J) J { return eFilter(eFilter(eVar(pick(g.r, g.arrays)), "map", eLit(vStr("k"))), "join") },
-	func(g *pgen, r J) J { return eFilter(eFilter(eVar(pick(g.r, g.arrays)), "concat", eVar(pick(g.r, g.arrays))), "size") },
+	func(g *pgen, r J) J {
+		return eFilter(eVar(pick(g.r, g.arrays)), pick(g.r, []string{"sort", "reverse", "uniq", "compact"}))
+	},
+	func(g *pgen, r J) J {
+		return eFilter(eFilter(eVar(pick(g.r, g.arrays)), pick(g.r, []string{"sort", "reverse", "uniq", "compact"})), "join", eLit(vStr("+")))
+	},
+	func(g *pgen, r J) J {
+		return eFilter(eFilter(eVar(pick(g.r, g.arrays)), "map", eLit(vStr("k"))), "join")
+	},
+	func(g *pgen, r J) J {
+		return eFilter(eFilter(eVar(pick(g.r, g.arrays)), "concat", eVar(pick(g.r, g.arrays))), "size")
+	},
 	func(g *pgen, r J) J { return eFilter(r, "slice", eLit(vInt(g.r.Intn(5)-2)), eLit(vInt(g.r.Intn(3)))) },
-	func(g *pgen, r J) J { return eFilter(eFilter(r, "split", eLit(vStr(pick(g.r, []string{",", " ", "b"})))), "join", eLit(vStr("/"))) },
-	func(g *pgen, r J) J { return eFilter(r, pick(g.r, []string{"lstrip", "rstrip", "escape", "url_encode", "downcase", "strip_newlines", "newline_to_br", "escape_once"})) },
+	func(g *pgen, r J) J {
+		return eFilter(eFilter(r, "split", eLit(vStr(pick(g.r, []string{",", " ", "b"})))), "join", eLit(vStr("/")))
+	},
+	func(g *pgen, r J) J {
+		return eFilter(r, pick(g.r, []string{"lstrip", "rstrip", "escape", "url_encode", "downcase", "strip_newlines", "newline_to_br", "escape_once"}))
+	},
 	func(g *pgen, r J) J { return eFilter(r, pick(g.r, []string{"floor", "ceil", "round", "abs"})) },
-	func(g *pgen, r J) J { return eFilter(r, pick(g.r, []string{"minus", "divided_by", "modulo", "plus", "times"}), eLit(pick(g.r, []J{vInt(2), vInt(0), vFlt(1, 2), vInt(-3)}))) },
+	func(g *pgen, r J) J {
+		return eFilter(r, pick(g.r, []string{"minus", "divided_by", "modulo", "plus", "times"}), eLit(pick(g.r, []J{vInt(2), vInt(0), vFlt(1, 2), vInt(-3)})))
+	},
 	func(g *pgen, r J) J { return eFilter(r, "truncatewords", eLit(vInt(1+g.r.Intn(2)))) },
-	func(g *pgen, r J) J { return eFilter(r, pick(g.r, []string{"remove", "remove_first"}), eLit(vStr(pick(g.r, []string{"a", " ", "é"})))) },
+	func(g *pgen, r J) J {
+		return eFilter(r, pick(g.r, []string{"remove", "remove_first"}), eLit(vStr(pick(g.r, []string{"a", " ", "é"}))))
+	},
 	func(g *pgen, r J) J { return eFilter(r, "round", eLit(vInt(g.r.Intn(3)))) },
 }
 
